@@ -39,7 +39,7 @@ import logging
 import os
 import time
 from collections import deque
-from collections.abc import Callable
+from collections.abc import Callable, Iterator
 from dataclasses import dataclass, field
 from typing import TYPE_CHECKING
 
@@ -48,7 +48,7 @@ from dulwich.object_store import (
     DiskObjectStore,
 )
 from dulwich.objects import Commit, ObjectID, Tag, Tree
-from dulwich.refs import RefsContainer
+from dulwich.refs import DiskRefsContainer, RefsContainer, is_per_worktree_ref
 
 if TYPE_CHECKING:
     from .config import Config
@@ -107,6 +107,41 @@ class GCStats:
     loose_objects_after: int = 0
 
 
+def _other_worktree_roots(refs_container: RefsContainer) -> Iterator[ObjectID]:
+    """Yield what the per-worktree refs of the other worktrees point at.
+
+    A repository with linked worktrees has one object store and one HEAD
+    (plus refs/bisect/ etc.) per worktree; a refs container only shows those
+    of the worktree it was opened in.
+
+    Args:
+        refs_container: Reference container of one of the worktrees
+    """
+    if not isinstance(refs_container, DiskRefsContainer):
+        return
+    common_dir = refs_container.path
+    git_dirs = [common_dir]
+    try:
+        git_dirs += [
+            os.path.join(common_dir, b"worktrees", name)
+            for name in os.listdir(os.path.join(common_dir, b"worktrees"))
+        ]
+    except (FileNotFoundError, NotADirectoryError):
+        pass
+    own_dir = os.path.realpath(refs_container.worktree_path)
+    for git_dir in git_dirs:
+        if os.path.realpath(git_dir) == own_dir:
+            continue
+        other = DiskRefsContainer(common_dir, worktree_path=git_dir)
+        for ref in other.allkeys():
+            if not is_per_worktree_ref(ref):
+                continue
+            try:
+                yield other[ref]
+            except KeyError:
+                continue
+
+
 def find_reachable_objects(
     object_store: BaseObjectStore,
     refs_container: RefsContainer,
@@ -139,6 +174,12 @@ def find_reachable_objects(
             if progress:
                 progress(f"Warning: Broken ref {ref.decode('utf-8', 'replace')}")
             continue
+
+    # The HEADs (and other per-worktree refs) of the other worktrees
+    for sha in _other_worktree_roots(refs_container):
+        if sha and sha not in reachable:
+            pending.append(sha)
+            reachable.add(sha)
 
     # TODO: Add reflog support when reflog functionality is available
 
